@@ -11,7 +11,8 @@ r=json.load(open('/tmp/vh/rep-mut.json'))
 print({k:r[k] for k in ('evaluations','distinct_nontrivial')}, 'violations', len(r['violations']))
 seen=set()
 for v in r['violations']:
-    if v['class'] in seen: continue
-    seen.add(v['class'])
+    k='/'.join(v['class'].split('/')[:2])
+    if k in seen or len(seen)>=5: continue
+    seen.add(k)
     print('  ==',v['class'],v['what'][:200])
 PY
